@@ -17,9 +17,11 @@ EXTENDS XsdBase, TLC, Json
 
 CONSTANTS D, Thin, MaxLen, MaxDepth, MaxElems, LazyMode
 
-Shapes == {s \in UNION {[1..n -> 0..MaxLen] : n \in 1..MaxLen} :
-             /\ s[1] = 0
-             /\ \A i \in 2..Len(s) : s[i] >= 1 /\ s[i] <= s[i - 1] + 1}
+(* built by extension (the set of all functions 1..n -> 0..MaxLen is too large to filter) *)
+RECURSIVE ShapesOfLen(_)
+ShapesOfLen(n) == IF n = 1 THEN {<<0>>}
+                  ELSE UNION {{Append(s, d) : d \in 1..(s[Len(s)] + 1)} : s \in ShapesOfLen(n - 1)}
+Shapes == UNION {ShapesOfLen(n) : n \in 1..MaxLen}
 
 VARIABLES shape, pos, open, handed, attached, nsmaps, maxdepth, count, outcome
 vars == <<shape, pos, open, handed, attached, nsmaps, maxdepth, count, outcome>>
